@@ -22,10 +22,11 @@ fn cfg(d: &mut Dna, explicit_bounds: bool) -> GenCfg {
     c.discriminants = false;
     c.raw_idents = false;
     c.partial_types = false;
-    c.consts = d.chance(30);
+    c.consts = d.chance(50);
+    c.const_pct = 45;
     c.max_variants = 3;
     c.min_variants = 1;
-    c.min_type_params = 1;
+    c.min_type_params = if d.chance(80) { 1 } else { 0 };
     c.min_fields = 1;
     c
 }
@@ -261,7 +262,7 @@ pub fn prepare_with(dna: &[u16], explicit_bounds: bool) -> Option<Case> {
     let c = cfg(&mut d, explicit_bounds);
     let built = gen::build(&mut d, &c);
     let s = built.spec;
-    if s.gens.types.is_empty() || s.variants.is_empty() {
+    if s.gens.is_empty() || s.variants.is_empty() {
         return None;
     }
     let known = check::load_known();
@@ -299,17 +300,7 @@ pub fn prepare_with(dna: &[u16], explicit_bounds: bool) -> Option<Case> {
             if violates {
                 continue;
             }
-            let mut args: Vec<String> = Vec::new();
-            for _ in &s.gens.lifetimes {
-                args.push("'static".into());
-            }
-            for (_, m) in &sigma {
-                args.push(m.to_string());
-            }
-            for c in &s.gens.consts {
-                args.push(c.inst.clone());
-            }
-            let ty = format!("{}<{}>", s.name, args.join(", "));
+            let ty = format!("{}{}", s.name, s.gens.inst_with(&sigma.iter().map(|(_, m)| m.to_string()).collect::<Vec<_>>()));
             let exp = expected(&s, *x, target.as_deref(), &params, &sigma);
             let tp = trait_path(*x, target.as_deref());
             o.push_str(&format!(
